@@ -217,7 +217,7 @@ func checkC11(r *evid.Run) {
 			if !fateFeasible(sink, f) {
 				continue
 			}
-			for _, n := range []int{5, 8, 12} {
+			for _, n := range []int{5, 8, 12, 24} { // (24: 18 failing blocks, more than a stage has workers plus buffer slots)
 				fv := make([]string, n)
 				for i := range fv {
 					fv[i] = f
